@@ -2,6 +2,7 @@ import PercevalModel.Proto
 import PercevalModel.Model.C10
 import PercevalModel.Model.C10Hist
 import PercevalModel.Model.C10HistR
+import PercevalModel.Model.C10Verdict
 
 open Lean PM PM.Proto PM.C10
 
@@ -243,6 +244,24 @@ def handleHist (j : Json) : Except String Json := do
                        ("no_herald_removal", .bool (noHeraldRemoval fx e0 ops)),
                        ("keeps_herald_out", .bool (keepsHeraldOut fx e0 ops))]
 
+/-- `{"op": "verdict", "left": side, "right": side, "map": offset-or-list}` -> the closed-form verdict of the add of a
+bare component (`compVerdict`, proved equal to the verdict of `compose` by `add_component_closed`) next to the
+verdict of the chain itself, so that the harness can compare both with the real `Processor.add` -/
+def handleVerdict (j : Json) : Except String Json := do
+  let l ← sideOf (← j.getObjVal? "left")
+  let r ← sideOf (← j.getObjVal? "right")
+  let raw ← rawMapOf (← j.getObjVal? "map")
+  if !r.comp then throw "verdict: the right-hand side must be a bare component"
+  if r.m = 0 then throw "verdict: component without modes"
+  match raw with
+  | .ofDict _ => throw "verdict: offset or list mapping only"
+  | _ => pure ()
+  let cls (o : Option Err) : Json := match o with | none => .str "ok" | some e => .str e.name
+  let chain : Option Err := match compose .all true true l r raw (← boolOf j "keep_port") with
+    | .ok _ => none
+    | .error e => some e
+  return Json.mkObj [("closed", cls (compVerdict l r raw)), ("chain", cls chain)]
+
 def handle (j : Json) : Json :=
   let r : Except String Json :=
     match j.getObjVal? "op" with
@@ -250,6 +269,7 @@ def handle (j : Json) : Json :=
     | .ok (.str "resolve") => handleResolve j
     | .ok (.str "compose") => handleCompose j
     | .ok (.str "hist") => handleHist j
+    | .ok (.str "verdict") => handleVerdict j
     | .ok _ => .error "unknown op"
     | .error _ => handleCompose j
   match r with
